@@ -72,14 +72,14 @@ theorem build_call_inv (regexOk : RegexOk) (limit : Nat) (sn sd : Bool) (name pf
         dsimp only at h
         rw [if_neg (by decide)] at h
         refine fin _ h ?_
-        simp only [hm', hr', hl', hp', hn', Bool.false_eq_true, ↓reduceIte, Bool.and_false, Bool.or_false]
+        simp only [hm', hr', hl', hp', hn', Bool.false_eq_true, ↓reduceIte, Bool.and_false, Bool.false_and, Bool.or_false]
       | some m =>
         dsimp only at h
         by_cases h2 : decide (args.argList.length > m) = true
         · rw [if_pos h2] at h; cases h
         · rw [if_neg h2] at h
           refine fin _ h ?_
-          simp only [hm', hr', hl', hp', hn', Bool.false_eq_true, ↓reduceIte, Bool.and_false, Bool.or_false]
+          simp only [hm', hr', hl', hp', hn', Bool.false_eq_true, ↓reduceIte, Bool.and_false, Bool.false_and, Bool.or_false]
 
 /-- pointwise relation of two lists -/
 inductive All2 {α β : Type} (R : α → β → Prop) : List α → List β → Prop
@@ -538,8 +538,10 @@ theorem args_builds (args : List Ast) (h : ∀ a ∈ args, Builds a) :
 theorem call_builds (name pfx : String) (args : List Ast) (mn : Nat) (mx : Option Nat) (idx : Bool)
     (hfa : fnArity name = some (mn, mx, idx)) (h1 : mn ≤ args.length)
     (h2 : ∀ m, mx = some m → args.length ≤ m) (hm : name ≠ "matches")
-    (h : ∀ a ∈ args, Builds a) : Builds (.call name pfx (Ast.ofArgList args)) := by
+    (h : ∀ a ∈ args, Builds a) (hz : args.length ≠ 0 := by first | simp | omega) :
+    Builds (.call name pfx (Ast.ofArgList args)) := by
   intro regexOk limit sn sd fl st hd
+  have hz' : (args.length == 0) = false := by simpa using hz
   simp only [ht] at hd
   obtain ⟨ao, hao, had⟩ := args_builds args h regexOk limit sn sd (fnUsed name args.length)
     { st with depth := st.depth + 1 } (by simp only; omega)
@@ -549,14 +551,14 @@ theorem call_builds (name pfx : String) (args : List Ast) (mn : Nat) (mx : Optio
   rw [if_neg (by omega)]
   cases mx with
   | none =>
-    simp only [hao, bind, Except.bind, hm', Bool.false_eq_true, ↓reduceIte]
+    simp only [hao, bind, Except.bind, hm', hz', Bool.false_eq_true, ↓reduceIte, Bool.and_false, Bool.false_and]
     refine ⟨_, rfl, ?_⟩
     simp only [build.leave, had]
     omega
   | some m =>
     have := h2 m rfl
     have h3 : decide (args.length > m) = false := by simp; omega
-    simp only [h3, hao, bind, Except.bind, hm', Bool.false_eq_true, ↓reduceIte]
+    simp only [h3, hao, bind, Except.bind, hm', hz', Bool.false_eq_true, ↓reduceIte, Bool.and_false, Bool.false_and]
     refine ⟨_, rfl, ?_⟩
     simp only [build.leave, had]
     omega
@@ -565,7 +567,7 @@ theorem strE_builds (e : Ast) (h : StrE e) : Builds e := by
   induction h with
   | lit s => exact builds_str s
   | concat pfx args h2 _ ih =>
-    exact call_builds "concat" pfx args 2 none false (by simp [fnArity]) h2 (by simp) (by decide) ih
+    exact call_builds "concat" pfx args 2 none false (by simp [fnArity]) h2 (by simp) (by decide) ih (by omega)
   | substringBefore pfx a b _ _ iha ihb =>
     exact call_builds "substring-before" pfx [a, b] 2 (some 2) false (by simp [fnArity]) (by simp)
       (by simp) (by decide) (by simp [iha, ihb])
